@@ -38,7 +38,7 @@ def bounds(tier):
 
 
 def units(tier, seed):
-    return c03.units(tier, seed)
+    return c03.units(tier, seed) + [dict(large=True, dist=d, tier=tier) for d in ("NormalLifetime", "WeibullLifetime")]
 
 
 def run_case(kind, grid, li, quad, extra, pair, drv):
@@ -68,7 +68,7 @@ def run_case(kind, grid, li, quad, extra, pair, drv):
             d = dsm_impl.run_stock("inflow", grid, lt, quad, extra, shapes, dsm_impl.driver_series("pos", n, extra))["stock"]
         else:
             d = dsm_impl.driver_series(drv, n, extra)
-        return dsm_impl.run_stock(kind, grid, lt, quad, extra, shapes, d, recompute=(drv in RECOMPUTE_DRIVERS), int_dtype=drv.endswith("#int"))
+        return dsm_impl.run_stock(kind, grid, lt, quad, extra, shapes, d, recompute=(drv in RECOMPUTE_DRIVERS), int_dtype=drv.endswith("#int"), shadow=(drv in ("mixed", "inc", "from-inflow")))
 
     st, res = attempt(compute)
     if st == "raised":
@@ -104,8 +104,59 @@ def run_case(kind, grid, li, quad, extra, pair, drv):
     return "cohorts-consistent", None
 
 
+def run_large_case(dist, kind):
+    """two LARGE models (12 x 100) computed one after the other in one process; the second one's lifetime parameters
+    differ from the first's only in the interior of the parameter array"""
+    import numpy as np
+
+    import flodym
+    from checks import c08
+
+    case = dict(large=True, dist=dist, kind=kind)
+    grid, extra, dims, labs, names, pfun, arrays = c08.large_setup(dist)
+    n = len(grid)
+    dt = dsm.dts(grid)
+
+    def go():
+        for variant in ("A", "B"):
+            lm = getattr(flodym, dist)(dims=dims, **arrays(variant))
+            drv = np.array([[5.0 + ((3 * t + j) % 7) for j in range(100)] for t in range(n)])
+            if kind == "inflow":
+                s = flodym.InflowDrivenDSM(dims=dims, lifetime_model=lm, inflow=flodym.StockArray(dims=dims, values=drv))
+            else:
+                s = flodym.StockDrivenDSM(dims=dims, lifetime_model=lm, stock=flodym.StockArray(dims=dims, values=np.cumsum(drv, axis=0)))
+            s.compute()
+            sf_m, _ = dsm.sf_table(grid, dist, pfun(variant), "middle", 1, labs)
+            sbc = s.get_stock_by_cohort()
+            scale = float(np.abs(s.inflow.values).max()) + float(np.abs(s.stock.values).max())
+            for (t, c, lab), v in sf_m.items():
+                if v is None or c > t:
+                    continue
+                want = float(s.inflow.values[(c,) + lab]) * dt[c] * v
+                if not abs(float(sbc[(t, c) + lab]) - want) <= TOL * scale:
+                    return f"model {variant}: stock_by_cohort[t={t}, c={c}, {lab}] = {float(sbc[(t, c) + lab])!r} but inflow({c}) x dt x survival share = {want!r}"
+            if not np.allclose(sbc.sum(axis=1), s.stock.values, rtol=0, atol=TOL * scale):
+                return f"model {variant}: stock != sum over cohorts"
+        return None
+
+    st, d = attempt(go)
+    if st == "raised" or d:
+        return "fail", dict(case=case, tags=dict(cls=kind, dist=dist, kind="large"), what=f"large {kind} DSM with {dist} (12 x 100): {('raised ' + str(d)) if st == 'raised' else d}")
+    return "cohorts-consistent (large)", None
+
+
 def run_unit(u):
     tier = u["tier"]
+    if u.get("large"):
+        res = dict(evals=0, nontrivial=0, outcomes={}, fails=[], samples=[])
+        for kind in ("inflow", "stock"):
+            oc, f = run_large_case(u["dist"], kind)
+            res["evals"] += 1
+            res["nontrivial"] += 1
+            res["outcomes"][oc] = res["outcomes"].get(oc, 0) + 1
+            if f:
+                res["fails"].append(f)
+        return res
     grid, li = u["grid"], u["lt"]
     n = len(grid)
     res = dict(evals=0, nontrivial=0, outcomes={}, fails=[], samples=[])
@@ -129,5 +180,8 @@ def run_unit(u):
 
 
 def replay(case):
+    if case.get("large"):
+        oc, f = run_large_case(case["dist"], case["kind"])
+        return [f] if f else []
     oc, f = run_case(case["kind"], case["grid"], case["lt"], tuple(case["quad"]), case["extra"], tuple(case["pair"]), case["drv"])
     return [f] if f else []
